@@ -69,9 +69,18 @@ def wordlist_contract(repo, root, tier):
         phrase = " ".join([canonical[0]] * 11 + [canonical[(i & ~15) | cs]])
         cmds.append("parse\t" + phrase)
         expect.append("ok\t12\t" + phrase)
-    for bad in ["zzzz", "abandonx", "Abandon", "abando", "zoo ", ""]:
-        cmds.append("parse\t" + " ".join([bad] + [canonical[0]] * 11))
-        expect.append("err")
+    # near-miss spellings of a word in an otherwise VALID phrase (abandon x11 about): must be refused, so that
+    # "search finds nothing but the exact list words" is validated and not masked by a checksum failure
+    ent0 = (0).to_bytes(16, "big")
+    about = canonical[hashlib.sha256(ent0).digest()[0] >> 4]
+    cmds.append("parse\t" + " ".join([canonical[0]] * 11 + [about]))
+    expect.append("ok\t12\t" + " ".join([canonical[0]] * 11 + [about]))
+    for bad in ["zzzz", "abandonx", "Abandon", "ABANDON", "abando", "abandon\u0301", "aband0n", "\uff41bandon"]:
+        for pos in (0, 5):
+            words = [canonical[0]] * 11 + [about]
+            words[pos] = bad
+            cmds.append("parse\t" + " ".join(words))
+            expect.append("err")
     r = subprocess.run([str(tool)], input="\n".join(cmds) + "\n", stdout=subprocess.PIPE, text=True)
     got = r.stdout.split("\n")[:len(cmds)]
     bad = [(c, e, g) for c, e, g in zip(cmds, expect, got) if e != g]
